@@ -305,12 +305,24 @@ def reference(p, tab, timestep, max_steps, root):
                 g.close()
 
     actions = []
+    top = p["scenarios"][0]
     try:
+        # the top-level scenario's guards are checked when the simulation starts (preconditions, then invariants) ...
+        if not all(cond(c) for c in top["pre"]):
+            raise Viol(True)
+        if not all(cond(c) for c in top["inv"]):
+            raise Viol(False)
         start(root)
         g = block(B[root]["body"], root)
         done = False
-        for t in range(max_steps):
+        for t in range(max_steps + 1):
             T[0] = t
+            # ... and its invariants again in every later step, before the behaviors run (the step the step limit is
+            # detected in included)
+            if t > 0 and not all(cond(c) for c in top["inv"]):
+                raise Viol(False)
+            if t == max_steps:
+                break
             if done:
                 actions.append([])
                 continue
@@ -345,6 +357,12 @@ def gen_interrupt_program(rng):
         p["behaviors"].append(dict(pre=[g.cond(bias=0.95, const=0.6) for _ in range(rng.choice([0, 0, 0, 1]))],
                                    inv=[g.cond(bias=0.9, const=0.3) for _ in range(rng.choice([0, 0, 1]))], body=body))
     p["objects"] = [0]
+    if rng.random() < 0.3:
+        # guards of the top-level scenario (checked when each simulation starts: the truth tables of the runs of one
+        # compiled program make them hold in some simulations and fail in others, in any order)
+        p["scenarios"][0]["pre"] = [g.cond(bias=0.7, const=0)]
+        if rng.random() < 0.3:
+            p["scenarios"][0]["inv"] = [g.cond(bias=0.9, const=0)]
     return p, g
 
 
@@ -412,6 +430,40 @@ def loop_control_family(rng, quick):
     return out
 
 
+AFTER = {   # loop control FOLLOWING a nested try-interrupt statement in the body of an ordinary loop (condition 2 = the `if`)
+    "none": [], "Bk": [("BR",)], "Co": [("CO",)], "IfB": [("IF", 2, [("BR",)], [])], "IfC": [("IF", 2, [("CO",)], [])],
+    "IfCB": [("IF", 2, [("CO",)], [("BR",)])], "TkB": [("TK", 5), ("BR",)],
+}
+
+
+def nested_control_family(rng, quick):
+    """try-interrupt statements nested to depth 2 and 3 with an ordinary `while` loop between the levels and loop control
+    AFTER the nested statement in that loop's body (it refers to that loop, not to the enclosing interrupt block):
+        while True: take 1; try: [while c3: take 2; try: .. interrupt when c0: ..; <after>; take 6]; take 7 interrupt when c1: ..; take 8
+    with the loop in the body or in the handler of the outer statement.  Returns (name, program, nconds)."""
+    def loop(depth, after):
+        inner_body = [("TK", 3)] + ([loop(depth - 1, after)] if depth > 1 else [("TK", 4)])
+        return ("WH", 3, [("TK", 2), ("TRY", inner_body, [(0, INNER_H[hin])])] + AFTER[after] + [("TK", 6)])
+    out = []
+    INNER_H = {"A": [("TK", 4)], "Ab": [("TK", 4), ("AB",)], "Bk0": [("BR",)], "Co": [("TK", 4), ("CO",)]}
+    combos = [(place, depth, after, hin, hout) for place in ("body", "handler") for depth in (1, 2) for after in AFTER
+              for hin in INNER_H for hout in ("A", "Bk", "Co", "Ab")]
+    if quick:
+        combos = [cb for cb in combos if cb[2] != "none" or cb[3] == "A"]
+        combos = rng.sample(combos, 96)
+    for place, depth, after, hin, hout in combos:
+        lp = loop(depth, after)
+        if place == "body":
+            outer = ("TRY", [lp, ("TK", 7)], [(1, BLOCKS[hout])])
+        else:
+            outer = ("TRY", [("TK", 2), ("TK", 3)], [(1, [lp, ("TK", 7)])])
+        p = cp.empty_program(1)
+        p["behaviors"] = [dict(pre=[], inv=[], body=[("WH", True, [("TK", 1), outer, ("TK", 8)]), ("TK", 9)])]
+        p["objects"] = [0]
+        out.append((f"nestctl-{place}-d{depth}-{after}-{hin}-{hout}", p, 4))
+    return out
+
+
 PROBES = [
     ("nested-break", "a break in a handler of a try-interrupt nested in a block of another one (outside any loop of that block) does not compile",
      [("WH", True, [("TK", 1), ("TRY", [("TRY", [("TK", 2), ("TK", 3)], [(0, [("BR",)])])], [(False, [("TK", 9)])])]), ("TK", 7), ("TK", 8)]),
@@ -440,9 +492,11 @@ def main():
     if c.replay:
         body = json.load(open(c.replay))
         cs = body["case"]["case"]
+        for h in cs.get("history", []):          # the simulations made before it from the same compiled scenario
+            cases.append((cs["name"] + "-history", cs["program"], cp.program_src(cs["program"]), h, None))
         cases.append((cs["name"], cs["program"], cp.program_src(cs["program"]), cs["run"], None))
     else:
-        nprog = 100 if quick else 4000
+        nprog = int(os.environ.get('VERIF_C13_N', 100 if quick else 4000))
         ntab = 24 if quick else 64
         made = 0
         attempts = 0
@@ -471,6 +525,16 @@ def main():
                 bias = [0.25, 0.4, 0.6][ti % 3]
                 tab = [[trng.random() < bias for _ in range(7)] for _ in range(n)]
                 cases.append((f"{name}-{ti}", p, src, dict(tab=tab, perms=[], max_steps=7, timestep=1, raise_gv=True), None))
+        nfam = nested_control_family(random.Random(rng.getrandbits(64)), quick)
+        for name, p, n in nfam:
+            if quirks(p) & {"a", "e"}:
+                c.hist("generator:avoided-nestctl")
+                continue
+            src = cp.program_src(p)
+            for ti in range(6 if quick else 40):
+                bias = [0.25, 0.4, 0.6][ti % 3]
+                tab = [[trng.random() < bias for _ in range(9)] for _ in range(3)] + [[trng.random() < 0.8 for _ in range(9)]]
+                cases.append((f"{name}-{ti}", p, src, dict(tab=tab, perms=[], max_steps=9, timestep=1, raise_gv=True), None))
         for name, what, body in PROBES:
             p = cp.empty_program(1)
             p["behaviors"] = [dict(pre=[], inv=[], body=body)]
@@ -493,10 +557,11 @@ def main():
     for j in jobs:
         res = impl[j["id"]]
         base = None
-        for i, obs in zip(j["_idxs"], res.get("runs", [None] * len(j["_idxs"]))):
+        for ri, (i, obs) in enumerate(zip(j["_idxs"], res.get("runs", [None] * len(j["_idxs"])))):
             name, p, src, run, probe = cases[i]
+            hist = [cases[x][3] for x in j["_idxs"][max(0, ri - 3):ri]]     # (the last three simulations before this one)
             q = sorted(quirks(p))
-            case = dict(name=name, program=p, src=src, run=run)
+            case = dict(name=name, program=p, src=src, run=run, run_index=ri, history=hist)
             ref = reference(p, run["tab"], run["timestep"], run["max_steps"], 0)
             if "compile_error" in res:
                 c.count((src, run), nontrivial=True)
@@ -518,7 +583,7 @@ def main():
             for k in cp.kinds(p) & {"TRY", "AB", "BR", "CO", "RT", "DO", "DOF", "DOU", "WH"}:
                 c.hist("stmt:" + k)
             modelled = (not probe) or name in ("probe-break-ignored", "probe-nested-return", "probe-invariant-while-sub-runs")
-            ok = c12.compare(c, name, p, src, run, obs, mod, None) if modelled else True   # the other probes are outside the modelled fragment
+            ok = c12.compare(c, name, p, src, run, obs, mod, None, run_index=ri, history=hist) if modelled else True   # the other probes are outside the modelled fragment
             # oracle: the documented semantics
             rk = ref["kind"]
             if not run.get("raise_gv", True) and rk in ("PreconditionViolation", "InvariantViolation"):
